@@ -8,6 +8,7 @@ A wrong outcome is an ANALYSIS-ERROR of the checker (exit 2), never a verdict ab
 """
 import importlib
 import multiprocessing
+import os
 import warnings
 
 from . import engine, report
@@ -544,6 +545,65 @@ CATALOGUE['C08'] += [
   (F, 'R-LUORDER', 'camxfiles/landuse/Write.py', "['FLAND', 'LUCAT11', 'LUCAT26', 'VAR1', 'LAI', 'TOPO']", "['FLAND', 'VAR1', 'LAI', 'TOPO', 'LUCAT11', 'LUCAT26']"),
   (S, None, 'camxfiles/landuse/Write.py', "['FLAND', 'LUCAT11', 'LUCAT26', 'VAR1', 'LAI', 'TOPO']", "['LUCAT26', 'LUCAT11', 'FLAND', 'VAR1', 'LAI', 'TOPO']"),
 ]
+
+# ---- variants taken from committed seeded changes (one file, any number of hunks): the rule named here must fire on the patched text.
+# A seed whose hunks no longer match the tree is skipped (reported as such), never a failure.
+SEED_VARIANTS = {
+ 'C01': [('C01-x2', 'R-EVALDIMS'), ('C01-x3', 'R-NEWLEN')],
+ 'C02': [('C02-x3', 'R-FUZZYDIM'), ('C02-x2', 'R-ZIPAXIS'), ('C02-x1', 'R-FILLLOOK')],
+ 'C03': [('C03-x2', 'R-FUZZYDIM'), ('C03-x3', 'R-CONVCALL')],
+ 'C04': [('C04-x1', 'R-MACONCAT'), ('C04-x3', 'R-UNLIM')],
+ 'C05': [('C05-x3', 'R-QMUT')],
+ 'C06': [('C06-x1', 'R-PASSONLY'), ('C06-x3', 'R-MASKDEFPARSE')],
+ 'C07': [('C07-x3', 'R-FILLZERO'), ('C07-x1', 'R-NCATTRAPI')],
+ 'C08': [('C09-x2', 'R-CARRY'), ('C08-x3', 'R-VARORDER'), ('C09-m3', 'R-ONESTEP')],
+ 'C10': [('C10-x1', 'R-STARTSYNC'), ('C10-x2', 'R-DIMRESET')],
+ 'C11': [('C11-x1', 'R-TIMESRC'), ('C12-x3', 'R-STEPSET')],
+ 'C12': [('C12-x1', 'R-CALSRC')],
+ 'C13': [('C13-x1', 'R-TIMEORIGIN'), ('C13-x2', 'R-ONESHOT'), ('C13-x3', 'R-STEPTILE')],
+ 'C15': [('C15-x2', 'R-NOSTATE'), ('C15-x3', 'R-ISMINEPURE')],
+ 'C16': [('C16-x1', 'R-BOUNDSBREAK'), ('C16-x2', 'R-QUERYDTYPE'), ('C16-x3', 'R-EDGEPAIR')],
+ 'C17': [('C17-x1', 'R-NORMSAME'), ('C17-x2', 'R-SIGMADEF'), ('C17-x3', 'R-COORDSEL')],
+ 'C18': [('C18-x2', 'R-PIECEORDER'), ('C18-x3', 'R-REGALL')],
+ 'C19': [('C19-x2', 'R-MISSPARSE'), ('C19-x3', 'R-LINECOUNT')],
+ 'C20': [('C20-x3', 'R-ARLWIDTH')],
+}
+
+
+def _patch_variant(seed):
+    """(relpath under src/PseudoNetCDF, olds, news) of a single-file patch, or None"""
+    path = os.path.join(os.path.dirname(os.path.dirname(os.path.abspath(__file__))), 'seeded', seed, 'patch.diff')
+    if not os.path.isfile(path):
+        return None
+    files, olds, news, cur_o, cur_n = [], [], [], None, None
+    for line in open(path, encoding='utf-8', errors='replace').read().split('\n'):
+        if line.startswith('+++ b/'):
+            files.append(line[6:])
+        elif line.startswith('@@'):
+            if cur_o is not None:
+                olds.append(''.join(cur_o)); news.append(''.join(cur_n))
+            cur_o, cur_n = [], []
+        elif cur_o is not None and not line.startswith(('diff ', 'index ', '--- ', '+++ ', '\\')):
+            if line.startswith('-'):
+                cur_o.append(line[1:] + '\n')
+            elif line.startswith('+'):
+                cur_n.append(line[1:] + '\n')
+            elif line.startswith(' '):
+                cur_o.append(line[1:] + '\n'); cur_n.append(line[1:] + '\n')
+            elif line == '':
+                pass
+    if cur_o is not None:
+        olds.append(''.join(cur_o)); news.append(''.join(cur_n))
+    if len(files) != 1 or not files[0].startswith('src/PseudoNetCDF/'):
+        return None
+    return files[0][len('src/PseudoNetCDF/'):], tuple(olds), tuple(news)
+
+
+for _p, _lst in SEED_VARIANTS.items():
+    for _seed, _rule in _lst:
+        _v = _patch_variant(_seed)
+        if _v is not None:
+            CATALOGUE.setdefault(_p, []).append((F, _rule, _v[0], _v[1], _v[2]))
 
 def _findings(prop, overlay):
     warnings.simplefilter('ignore')
